@@ -817,3 +817,57 @@ def rule_offset_verbatim(ctx):
                'the offset is `%s`%s: an offset of +12:00 and beyond (or below -12:00) comes back as the one a day away - same wall '
                'clock, another instant' % (norm(arg) if arg is not None else '?', '' if not isinstance(arg, ast.Name) else ' after a re-definition')
                if not ok else 'minutes=offset', node=c)
+
+
+# ------------------------------------------------------------------- A6.zeroseg
+
+def rule_zero_segments(ctx):
+    """A6.zeroseg: the constructed form of a string may consist of no segments at all (X.690 8.6.4 / 8.7.3); the indefinite
+    form `23 80 00 00` is read as the empty BIT STRING, so the definite form `23 00` must be too.  In the BIT STRING
+    decoder the "no contents octets" error belongs to the PRIMITIVE form (which needs its unused-bits octet): the raise
+    is reached only where the base tag is known to be primitive."""
+    from sa.cfg import known_at
+    f = ctx.func('codec.ber.decoder.BitStringPayloadDecoder.valueDecoder')
+    cfg = ctx.cfg(f)
+    raises = []
+    for nd in cfg.nodes:
+        if nd.kind in ('raisestmt', 'raise') and nd.ast is not None and isinstance(nd.ast, ast.Raise):
+            # raise guarded by a test on `length` alone
+            deps = [t for t in cfg.nodes if t.kind == 'test' and t.ast is not None and norm(t.ast.test) in ('not length', 'length == 0', 'length < 1', 'not length > 0')
+                    and any(s is nd for s, lab in t.succs)]
+            if deps:
+                raises.append(nd)
+    if not raises:
+        raise AnalysisError('the empty-contents error of %s was not found' % f.short)
+    for nd in raises:
+        prim = known_at(cfg, nd, 'tagSet[0].tagFormat == tag.tagFormatSimple', True)
+        ctx.ob('A6.zeroseg', f, 'the "no contents octets" error (line %d) is raised for the primitive form only' % nd.ast.lineno, prim,
+               'the error is raised before the form is looked at: `23 00` - a constructed BIT STRING of no segments, the definite-length '
+               'twin of `23 80 00 00` - is refused' if not prim else 'under the primitive-form test', node=nd.ast)
+
+
+# ------------------------------------------------------------------- C04.copyvalue
+
+def rule_copy_is_value(ctx):
+    """C04.copyvalue: the deep copy of a SEQUENCE OF / SET OF that is a value is a value, also when it holds nothing:
+    the copier leaves a schema object alone (early return on `_componentValues is noValue`) and otherwise starts the copy
+    from `clear()` - an emptied list and its clone are the same abstract value and are written the same."""
+    from sa.cfg import known_at
+    f = ctx.func('type.univ.SequenceOfAndSetOfBase._cloneComponentValues')
+    cfg = ctx.cfg(f)
+    target = f.params()[1] if len(f.params()) > 1 else 'myClone'
+    clears = [nd for nd in cfg.stmt_nodes() if nd.ast is not None and nd.kind == 'stmt' and any(
+        isinstance(c, ast.Call) and norm(c.func) == '%s.clear' % target for e in _exprs(nd) for c in ast.walk(e))]
+    reads = [nd for nd in cfg.nodes if nd.ast is not None and any(
+        isinstance(c, ast.Call) and norm(c.func) in ('self._componentValues.items', 'self._componentValues.values', 'self._componentValues.keys')
+        for e in _exprs(nd) for c in ast.walk(e))]
+    if not reads:
+        raise AnalysisError('component walk not found in %s' % f.short)
+    for nd in reads:
+        guarded = known_at(cfg, nd, 'self._componentValues is noValue', False)
+        ctx.ob('C04.copyvalue', f, 'the components are walked only when there is a value', guarded,
+               '`.items()` of a schema object: clone(cloneValueFlag=True) of a schema SEQUENCE OF raises' if not guarded else 'after the noValue test', node=nd.ast)
+        cleared = bool(clears) and cfg.must_pass(cfg.entry, nd, lambda m: m in clears)
+        ctx.ob('C04.copyvalue', f, 'the copy is put into the value state before the walk', cleared,
+               'no `%s.clear()` on the way: the clone of an emptied list is a schema object (isValue False) - left out as an OPTIONAL '
+               'component where the original is written `30 00`' % target if not cleared else 'clear() first', node=nd.ast)
